@@ -5,6 +5,7 @@ import ast
 import itertools
 import json
 import random
+import re
 from collections import Counter
 from pathlib import Path
 
@@ -344,6 +345,7 @@ def sum_cases(mods):
 ROP = {">": "RGt", "<": "RLt", ">=": "RGe", "<=": "RLe", "==": "REq", "!=": "RNe"}
 FOLD_OPS = [">", "<", ">=", "<=", "=="]
 SYMS = {"n": 0, "m": 1}
+SYM_RE = re.compile(r"\b[nm]\b")
 OTHER_TXT = ["p(x)", "x % 2 == 0", "x > 2.5", "x > True", "x > n", "y > 1", "x > 1 or x < 0", "not x < 3",
              "0 < x < 4", "x < 'a'"]
 OTHER_TOTAL = OTHER_TXT[:-1]   # "x < 'a'" raises for every x: used as a single filter only
@@ -467,7 +469,7 @@ def range_property_fails(source: str, new: str) -> str | None:
     """the property's oracle: same elements in the same order for every value of the symbolic bounds"""
     if new == source:
         return None
-    symbolic = any(w in source for w in ("n", "m"))      # literal bounds: one evaluation is all there is
+    symbolic = SYM_RE.search(source) is not None          # literal bounds: one evaluation is all there is
     for n in (range(-3, 9) if symbolic else (3,)):
         b, a = comp_values(source, n), comp_values(new, n)
         if b != a:
@@ -908,7 +910,10 @@ def replay(path: str) -> int:
             except Exception as e:  # noqa
                 new = f"<crash {type(e).__name__}: {e}>"
         print("now:", repr(new), "->", range_property_fails(data["source"], new) or "same elements in the same order")
-        print("yields:", impl_range(mods, data["source"]))
+        try:
+            print("yields:", impl_range(mods, data["source"]))
+        except Exception as e:  # noqa
+            print("yields: crash", type(e).__name__, e)
     if data.get("kind") == "property-oracle" and data.get("site") == "main.format_code":
         with common.quiet():
             new = mods["main"].format_code(data["source"], preserve=frozenset({"f"}))
